@@ -563,7 +563,7 @@ def _s3_case(ctx, rep, rng, model_ok, case_id, directed=None):
 
     def hook(phase, op, key, kw):
         a = S.actor()
-        if a is None or not key.endswith("metadata.lock") or op in ("body-read", "list-page"):
+        if a is None or not key.endswith("metadata.lock") or op in ("body-read", "list-page", "put-body-sent"):
             return
         if phase == "before":
             S.gate(f"s3 {op}")
